@@ -1,5 +1,6 @@
-"""C10 (decided half) - representation changes are path-independent and reversible; the drift routes of an exponential
-model give the forward.  The analytic half (closed-form exponents = Levy-Khintchine integrals, cumulants) is not decided."""
+"""C10 - representation changes are path-independent and reversible; the drift routes of an exponential model give the
+forward (exact half).  The analytic half (closed-form exponents = Levy-Khintchine integrals, cumulants = moments) is
+judged by thin clauses at sampled parameters / arguments."""
 
 
 def run(ctx):
@@ -8,9 +9,14 @@ def run(ctx):
     tf = ctx.trace_path("repr")
     ctx.drive("repr_run", [tf, ctx.tier, ctx.seed])
     ctx.validate("Trace_Repr", "Trace_Repr.cfg", tf)
+    # thin half: exponent = Levy-Khintchine integral of the model's own density; cumulants = its moments
+    tx = ctx.trace_path("exponent")
+    ctx.drive("exponent_run", [tx, ctx.tier, ctx.seed])
+    ctx.validate("Trace_Exponent", "Trace_Exponent.cfg", tx)
     ctx.assumptions += [
         "atomic measures: the drift after every step is an exact integer; real measures: equality classes at relative 1e-9",
         "infinite-variation models are not converted to the ZERO representation (it does not exist)",
         "direct-simulation route: deterministic drift = r - d + omega + drift of L in the ZERO representation (generic conversion), for the models that offer direct simulation (BS, Merton, HEM); martingale under the exact jump law then follows from the characteristic-function route",
-        "NOT decided: closed-form exponents equal the Levy-Khintchine integral of the density; cumulants are derivatives of the exponent (real analysis, see DESIGN.md section 6)",
+        "thin clauses: exponent = Levy-Khintchine integral of the model's own density under the declared representation at 9 arguments (real, complex, -i), cumulants 1, 2, 4, 6 = moments of the density; HEM, Merton, VG, CGMY (y < 0, y = 0, 0 < y < 1, y = 1, 1 < y < 2) at seeded parameters; 2e-6 of max(1, |value|); scipy quadrature trusted as the reference",
+        "NOT decided: exponents / cumulants at other parameters and arguments (DESIGN.md section 6)",
     ]
